@@ -126,6 +126,15 @@ let parse_op (toks : string list) : op =
   | ["views"; v] -> OViews (nat v)
   | ["spare_write"; a; v; k] -> OSpareWrite (parse_api a, nat v, nn k)
   | ["set_len"; v; n] -> OSetLen (nat v, nn n)
+  | ["iter_clone"; k; v; p1; p2] -> OIterClone (parse_ik k, nat v, parse_pat_ro p1, parse_pat_ro p2)
+  | ["probe_types"; v; i] -> OProbeTypes (nat v, nn i)
+  | ["down_wrong"; v; k; i] -> ODownWrong (nat v, parse_tkind k, nn i)
+  | ["swap_wrong"; v; i] -> OSwapWrong (nat v, nn i)
+  | ["write"; hk; v; i] -> OWrite (nn hk, nat v, nn i)
+  | ["read"; hk; v; i] -> ORead (nn hk, nat v, nn i)
+  | ["swap"; pr; v1; i; v2; j] -> OSwap (nn pr, nat v1, nn i, nat v2, nn j)
+  | ["parts"; v; m] -> OParts (nat v, nn m)
+  | ["placement"] -> OPlacement
   | _ -> fail_parse "op" (String.concat " " toks)
 
 let parse_cfg (toks : string list) : cfg =
